@@ -18,7 +18,7 @@ Check (C05_tx_invariant_preserved : forall cx g s ev s' out tags,
 Check (C05_process_preserves : forall cx g s ip r s' reply tags,
   inv g s -> ctx_ok cx -> repr_ok r ->
   tcp_process cx s ip r = Ok (s', reply, tags) ->
-  exists g', inv g' s' /\ ghost_rel g g' /\ learned s r s').
+  exists g', inv g' s' /\ ghost_rel g g' /\ learned s r s' /\ proc_ghost cx g s r g').
 
 Check (C05_send_appends : forall g s data s' n,
   inv g s -> tcp_send_slice s data = Ok (s', n) ->
